@@ -257,6 +257,12 @@ where
     pub fn get_signature(&self) -> &Vec<D> {
         &self.signature
     }
+
+    /// verification hook: per-position register (race) values
+    #[cfg(probminhash_verif)]
+    pub fn verif_registers(&self) -> Vec<f64> {
+        (0..self.m).map(|k| self.maxvaluetracker.get_value(k)).collect()
+    }
 } // end of ProbMinHash3aSha
 
 //=================================================================
